@@ -490,17 +490,28 @@ class MATD3(MultiAgentRLAlgorithm):
                 if self.discrete_actions:
                     min_action, max_action = 0, 1
                 else:
-                    # NOTE: Bounds may differ between action dimensions
+                    # NOTE: Bounds may differ between action dimensions. The space's own bounds are
+                    # used (not their float32 copies) so that float64 spaces are respected exactly
                     min_action, max_action = (
-                        torch.as_tensor(self.min_action[idx], device=actions.device),
-                        torch.as_tensor(self.max_action[idx], device=actions.device),
+                        torch.as_tensor(self.action_spaces[idx].low, device=actions.device),
+                        torch.as_tensor(self.action_spaces[idx].high, device=actions.device),
                     )
+                    actions = actions.to(min_action.dtype)
 
                 # Add noise to actions for exploration
                 actions = torch.clamp(
                     actions + self.action_noise(idx),
                     min_action,
                     max_action,
+                )
+            elif isinstance(self.action_spaces[idx], spaces.Box):
+                # NOTE: Rescaling the squashed output can overshoot a bound by a rounding error
+                min_action, max_action = (
+                    torch.as_tensor(self.action_spaces[idx].low, device=actions.device),
+                    torch.as_tensor(self.action_spaces[idx].high, device=actions.device),
+                )
+                actions = torch.clamp(
+                    actions.to(min_action.dtype), min_action, max_action
                 )
 
             action_dict[agent_id] = actions.cpu().numpy()
